@@ -242,6 +242,7 @@ type ArtelaOpts struct {
 	ExtraAddrs    []common.Address // additional accounts to observe after each invocation
 	JPOverride    *bool            // force join points on/off for all invocations
 	NullTracer    bool             // install a do-nothing debug tracer (debug mode without recording)
+	CustomTracer  avm.EVMLogger    // installed as Config.Tracer as is (no recorder)
 	// DigestAt, if set, is evaluated at every transfer / can-transfer wrapper call
 	// (before the transfer) and stored in the event.
 	DigestAt func(st *state.StateDB) string
@@ -314,6 +315,8 @@ func RunArtela(sc *Scenario, opt ArtelaOpts) *ArtelaRun {
 		vmcfg.Tracer = logger
 	} else if opt.NullTracer {
 		vmcfg.Tracer = nullArtelaTracer{}
+	} else if opt.CustomTracer != nil {
+		vmcfg.Tracer = opt.CustomTracer
 	}
 	var sdb avm.StateDB = st
 	if opt.WrapState != nil {
@@ -456,6 +459,9 @@ type UpOpts struct {
 	// Artela opcode positions -> upstream ones).
 	OnEVM    func(evm *uvm.EVM, st *state.StateDB)
 	InnerFor func(i int, evm *uvm.EVM, inv *Invocation) uvm.EVMLogger
+	// CustomTracer is installed as Config.Tracer as is; WrapState wraps the state database.
+	CustomTracer uvm.EVMLogger
+	WrapState    func(uvm.StateDB) uvm.StateDB
 }
 
 type UpRun struct {
@@ -494,7 +500,14 @@ func RunUpstream(sc *Scenario, opt UpOpts) *UpRun {
 		logger = &UpLogger{R: rec, Inner: opt.Inner}
 		vmcfg.Tracer = logger
 	}
-	evm := uvm.NewEVM(bctx, uvm.TxContext{GasPrice: big.NewInt(10)}, st, cfg, vmcfg)
+	if opt.CustomTracer != nil && !opt.Debug {
+		vmcfg.Tracer = opt.CustomTracer
+	}
+	var usdb uvm.StateDB = st
+	if opt.WrapState != nil {
+		usdb = opt.WrapState(st)
+	}
+	evm := uvm.NewEVM(bctx, uvm.TxContext{GasPrice: big.NewInt(10)}, usdb, cfg, vmcfg)
 	if opt.OnEVM != nil {
 		opt.OnEVM(evm, st)
 	}
